@@ -37,7 +37,7 @@ fn class<T, E>(r: &Result<T, E>) -> &'static str {
 }
 
 pub fn eval(line: &str) -> String {
-    if line.starts_with("d ") {
+    if line.starts_with("d ") || line.starts_with("dd ") {
         return eval_deep(line);
     }
     let line = line.to_string();
@@ -96,124 +96,23 @@ pub fn eval(line: &str) -> String {
     })
 }
 
-pub fn deep_doc(shape: &str, d: usize) -> String {
-    let mut s = String::with_capacity(d * 8);
-    match shape {
-        "arr" | "arr_open" | "arr_garbage" | "arr_sibling" => {
-            for _ in 0..d {
-                s.push('[');
-            }
-            if shape != "arr_open" {
-                for _ in 0..d {
-                    s.push(']');
-                }
-            }
-            if shape == "arr_garbage" {
-                s.push('x');
-            }
-            if shape == "arr_sibling" {
-                s = format!("[{s},]");
-            }
-        }
-        "obj" | "obj_open" | "obj_garbage" => {
-            for _ in 0..d {
-                s.push_str("{\"a\":");
-            }
-            s.push('1');
-            if shape != "obj_open" {
-                for _ in 0..d {
-                    s.push('}');
-                }
-            }
-            if shape == "obj_garbage" {
-                s.push('x');
-            }
-        }
-        "mixed" | "mixed_open" => {
-            for i in 0..d {
-                s.push_str(if i % 2 == 0 { "[" } else { "{\"k\": " });
-            }
-            s.push_str("null");
-            if shape == "mixed" {
-                for i in (0..d).rev() {
-                    s.push_str(if i % 2 == 0 { " ]" } else { "}" });
-                }
-            }
-        }
-        "wide_deep" => {
-            // siblings before and after the deep spine: [1,[1,[1, ... ,2],2],2]
-            for _ in 0..d {
-                s.push_str("[1,");
-            }
-            s.push_str("[]");
-            for _ in 0..d {
-                s.push_str(",2]");
-            }
-        }
-        _ => s.push_str("null"),
-    }
-    s
-}
-
-/// Runs in the CHILD: parse inside a thread with a 64 KiB stack; prints the outcome.
-pub fn deep_child(shape: &str, d: usize, o: u32, entry: &str) {
-    let doc = deep_doc(shape, d);
-    let entry = entry.to_string();
-    let h = std::thread::Builder::new()
-        .stack_size(64 * 1024)
-        .spawn(move || {
-            let r = if entry == "str" { Value::parse_str_with(&doc, opts(o)) } else { Value::parse_slice_with(doc.as_bytes(), opts(o)) };
-            match r {
-                Ok((v, cm)) => {
-                    let n = v.traverse().count();
-                    // the same walk through the other standard ways of consuming an iterator
-                    // (they consult size_hint, fold, or skip): all must see the same fragments
-                    let hint = v.traverse().size_hint();
-                    let collected = v.traverse().collect::<Vec<_>>().len();
-                    let mut ext = Vec::new();
-                    ext.extend(v.traverse());
-                    let folded = v.traverse().fold(0usize, |a, _| a + 1);
-                    let skipped = {
-                        let mut it = v.traverse();
-                        if n > 2 { it.nth(n - 2).is_some() as usize + it.count() } else { 2 }
-                    };
-                    let last = v.traverse().last().is_some();
-                    let mut looped = 0usize;
-                    for _ in v.traverse() {
-                        looped += 1;
-                    }
-                    let agree = collected == n
-                        && ext.len() == n
-                        && folded == n
-                        && looped == n
-                        && skipped == 2
-                        && last == (n > 0)
-                        && hint.0 <= n
-                        && hint.1.map_or(true, |h| h >= n)
-                        && v.volume() <= n
-                        && v.count(|_, _| true) == n;
-                    drop(ext);
-                    let s = if agree { format!("OK {}/{}", n, cm.len()) } else { format!("TRAVERSE-DISAGREES {}/{}", n, cm.len()) };
-                    drop_deep(v);
-                    s
-                }
-                Err(_) => "ERR".to_string(),
-            }
-        })
-        .unwrap();
-    match h.join() {
-        Ok(s) => println!("{s}"),
-        Err(_) => println!("PANIC"),
-    }
-}
+pub use crate::deep::{deep_child, deep_doc};
 
 fn eval_deep(line: &str) -> String {
     let t = toks(line);
     if t.len() != 5 {
         return format!("BADCASE {line}");
     }
-    let exe = std::env::current_exe().unwrap();
-    let out = std::process::Command::new(exe).args(["c03", "deepchild", t[1], t[2], t[3], t[4]]).output();
+    // `d`: this (optimised) binary; `dd`: the same child compiled with opt-level 0 (harness-deep)
+    let out = if t[0] == "dd" {
+        match std::env::var("VERIF_DEEP_BIN") {
+            Ok(bin) => std::process::Command::new(bin).args([t[1], t[2], t[3], t[4]]).output(),
+            Err(_) => return "NO-DEEP-BIN".into(),
+        }
+    } else {
+        let exe = std::env::current_exe().unwrap();
+        std::process::Command::new(exe).args(["c03", "deepchild", t[1], t[2], t[3], t[4]]).output()
+    };
     match out {
         Ok(o) if o.status.success() => String::from_utf8_lossy(&o.stdout).trim().to_string(),
         Ok(o) => format!("ABORT({})", o.status.code().map(|c| c.to_string()).unwrap_or_else(|| "signal".into())),
@@ -246,6 +145,16 @@ pub fn generate(args: &Args, out: &mut Out) {
                     }
                     out.case(|| format!("d {shape} {d} {o} {entry}"));
                 }
+            }
+        }
+        // the unoptimised child: a recursion over the depth that the optimiser would turn into a
+        // loop (a tail call) still costs a frame per level there
+        let garbage0 = matches!(shape, "arr_garbage" | "obj_garbage" | "arr_sibling");
+        let deep0: &[usize] = if garbage0 { &[64, 100, 1000] } else if full { &[1000, 100000, 1000000] } else { &[1000, 100000] };
+        for &d in deep0 {
+            out.case(|| format!("dd {shape} {d} 0 str"));
+            if !garbage0 && d == 100000 {
+                out.case(|| format!("dd {shape} {d} 3 slice"));
             }
         }
         // small depths (must all pass).  For the three closed-then-error shapes the recorded
